@@ -6,8 +6,8 @@ import numpy as np
 from . import common, cons, hand, hist, place, universe, xt
 
 PID = "C03"
-FORMS = ["py", "py-args", "nd", "ndF", "ndS", "cap", "xobj-other", "xobj-ctx", "xobj-nested", "xobj-slack", "ref-same", "ref-foreign", "xobj-view", "xobj-nested-view", "xobj-capslack", "xobj-twin"] + cons.LEN
-PL = ["dirtyhole", "dirtyhole2", "hole", "explicit", "explicit-i8", "explicit-al16", "ba-hole", "grown", "al64"]
+FORMS = ["py", "py-args", "nd", "ndF", "ndS", "cap", "xobj-other", "xobj-ctx", "xobj-nested", "xobj-nested-lastslack", "xobj-slack", "ref-same", "ref-foreign", "xobj-view", "xobj-nested-view", "xobj-capslack", "xobj-twin"] + cons.LEN
+PL = ["dirtyhole", "dirtyhole2", "hole", "explicit", "explicit-i8", "explicit-al16", "al16-hole", "ba-hole", "grown", "al64"]
 
 
 def describe(tier):
@@ -197,7 +197,7 @@ def places_for(tier):
     def f(t, form):
         if form == "py":
             return PL if (tier == "thorough" or xt.depth(t) <= 1) else ["dirtyhole", "dirtyhole2", "grown"]
-        if form in ("cap", "xobj-slack", "xobj-capslack"):
+        if form in ("cap", "xobj-slack", "xobj-capslack", "xobj-nested-lastslack"):
             return ["dirtybig", "dirtybig2"]
         if form in ("ref-same", "ref-foreign"):
             return ["cap0"]
